@@ -1,6 +1,7 @@
 #!/usr/bin/env python3
 """Apply a seeded change to /repo, run the quick tier of the given checks, undo the change.
-usage: tools/seedrun.py <patch.diff> CNN [CNN...]   (prints one line per check: caught / missed)"""
+usage: tools/seedrun.py [--isolated] <patch.diff> CNN [CNN...]   (prints one line per check: caught / missed)
+--isolated applies the patch in a scratch worktree and points the harness at it with NV_REPO instead of touching /repo"""
 import os
 import subprocess
 import sys
@@ -9,7 +10,35 @@ ROOT = os.path.dirname(os.path.dirname(os.path.abspath(__file__)))
 REPO = "/repo"
 
 
+def isolated(patch, checks, tier):
+    """same thing in a scratch worktree (NV_REPO points the harness at it): /repo stays untouched, so background
+    sweeps that use /repo are not disturbed"""
+    wt = "/tmp/wt_seedrun_%d" % os.getpid()
+    head = subprocess.run(["git", "-C", REPO, "rev-parse", "HEAD"], capture_output=True, text=True).stdout.strip()
+    subprocess.run(["git", "-C", REPO, "worktree", "add", "-q", "--detach", wt, head], check=True)
+    try:
+        subprocess.run(["git", "-C", wt, "apply", patch], check=True)
+        env = dict(os.environ, NV_REPO=wt)
+        t = subprocess.run(["/venv/bin/python", "-m", "pytest", "-q", "-p", "no:cacheprovider", "-x"], cwd=wt,
+                           env=dict(env, PYTHONPATH=wt), capture_output=True, text=True)
+        print("tests with the change: %s" % (t.stdout.strip().split("\n")[-1]))
+        for c in checks:
+            p = subprocess.run([os.path.join(ROOT, "vcheck"), c, "--tier", tier], cwd=ROOT, env=env, capture_output=True, text=True)
+            viol = [l for l in p.stdout.split("\n") if l.startswith("VIOLATION")]
+            arrows = [l for l in p.stdout.split("\n") if l.startswith("  -> ")]
+            print("%s exit=%d violations=%d %s" % (c, p.returncode, len(viol), "CAUGHT" if p.returncode == 1 else
+                                                   ("INCONCLUSIVE" if p.returncode == 2 else "missed")))
+            for a in arrows[:3]:
+                print("     " + a[:300])
+            if p.returncode not in (0, 1):
+                print(p.stdout[-600:], p.stderr[-600:])
+    finally:
+        subprocess.run(["git", "-C", REPO, "worktree", "remove", "--force", wt])
+
+
 def main():
+    if sys.argv[1] == "--isolated":
+        return isolated(os.path.abspath(sys.argv[2]), sys.argv[3:], os.environ.get("SEED_TIER", "quick"))
     patch = os.path.abspath(sys.argv[1])
     checks = sys.argv[2:]
     tier = os.environ.get("SEED_TIER", "quick")
